@@ -28,7 +28,7 @@ def mutate(rng, boundary, body):
     t = fl.delim(boundary)
     body = bytearray(body)
     for _ in range(rng.choice([1, 1, 1, 2, 3])):
-        k = rng.randrange(14)
+        k = rng.randrange(16)
         i = rng.randrange(len(body) + 1)
         s = bytes(body)
         if k == 0 and body:
@@ -66,6 +66,20 @@ def mutate(rng, boundary, body):
             if j >= 0:
                 e = s.find(CRLF + CRLF, j)
                 body[j:e] = rng.choice([b'', b'x', b':', b'Content-Type: a'])
+        elif k in (14, 15):                            # extra part headers: parameters a parser might act on
+            starts = [m for m in range(len(s)) if s.startswith(b'Content-Disposition: ', m)]
+            if starts:
+                j = rng.choice(starts)
+                e = s.find(CRLF, j)
+                if e >= 0:
+                    body[e:e] = CRLF + rng.choice([
+                        b'Content-Type: text/plain; charset=klingon', b'Content-Type: text/plain; charset=hex',
+                        b'Content-Type: text/plain; charset=x-user-defined', b'Content-Type: text/plain; charset=utf-16',
+                        b'Content-Type: text/plain; charset=', b'Content-Type: text/plain; charset="latin1"',
+                        b'Content-Type: text/plain; charset=ascii', b'Content-Type: ; charset=utf-8; boundary=zz',
+                        b'Content-Transfer-Encoding: base64', b'Content-Transfer-Encoding: quoted-printable',
+                        b'Content-Length: 0', b'Content-Length: -1', b'X-Part: ' + b'y' * 40,
+                        b'Content-Disposition: form-data; name="dup"'])
         elif k == 10:
             j = s.find(CRLF)
             if j >= 0:
